@@ -2,7 +2,7 @@
 """First-order mutation campaign (a complement to the hand-written seeded changes, not part of any registered check).
   gen      <outdir>                  write one patch per mutant (single-token operator mutations of runtime/ and codegen/)
   filter   <outdir> <worktree> i/n   keep mutants that compile AND pass the existing test suite (shard i of n)
-  run      <outdir>                  apply each survivor to /repo, run `./check ALL`, undo; prints one JSON line each
+  run      <outdir> <repo-copy>      apply each survivor to the scratch worktree, run `./check ALL --repo <copy>` (evidence and replays redirected), undo
 Scratch worktrees live outside /repo and /verif; /repo is restored after every mutant."""
 import os, re, sys, json, subprocess, hashlib
 
@@ -69,7 +69,7 @@ def filt(outdir, wt, shard):
             st['status'] = 'compile-error'
         else:
             sh('find test/src -name grammar.rs -delete', cwd=wt)
-            rc, out = sh('cargo test --workspace --no-fail-fast --offline', cwd=wt)
+            rc, out = sh('timeout -k 5 600 cargo test --workspace --no-fail-fast --offline', cwd=wt)   # a hanging test counts as killed
             st['status'] = 'survived' if rc == 0 and 'FAILED' not in out else 'killed-by-tests'
         rc, diff = sh('git diff', cwd=wt)
         open(os.path.join(p, 'patch.diff'), 'w').write(diff)
@@ -77,25 +77,27 @@ def filt(outdir, wt, shard):
         sh('git checkout -q -- . ', cwd=wt)
         print(d, st['status'], flush=True)
 
-def run(outdir):
-    assert subprocess.run(['git', '-C', '/repo', 'status', '--porcelain', '--untracked-files=no'], capture_output=True, text=True).stdout.strip() == '', '/repo not clean'
+def run(outdir, REPO):
+    assert subprocess.run(['git', '-C', REPO, 'status', '--porcelain', '--untracked-files=no'], capture_output=True, text=True).stdout.strip() == '', REPO + ' not clean'
     for d in sorted(os.listdir(outdir)):
         p = os.path.join(outdir, d)
         sp = os.path.join(p, 'status.json')
         if not os.path.exists(sp) or json.load(open(sp)).get('status') != 'survived': continue
         if os.path.exists(os.path.join(p, 'checks.json')): continue
-        r = subprocess.run(['git', '-C', '/repo', 'apply', os.path.join(p, 'patch.diff')], capture_output=True, text=True)
+        r = subprocess.run(['git', '-C', REPO, 'apply', os.path.join(p, 'patch.diff')], capture_output=True, text=True)
         if r.returncode != 0:
             print(json.dumps({'mutant': d, 'error': r.stderr[-200:]})); continue
         try:
-            c = subprocess.run(['./check', 'ALL'], cwd='/verif', capture_output=True, text=True, timeout=7200)
+            env = dict(os.environ, VERIF_EVIDENCE_DIR=os.path.join(outdir, '_evidence'), VERIF_REPLAY_DIR=os.path.join(p, 'replays'))
+            c = subprocess.run(['./check', 'ALL', '--repo', REPO], cwd='/verif', capture_output=True, text=True, timeout=7200, env=env)
+            open(os.path.join(p, 'check.log'), 'w').write(c.stdout + c.stderr)
             viol = sorted(set(re.findall(r'^VIOLATION property=(C\d+)', c.stdout, re.M)))
             inc = sorted(set(re.findall(r'^INCONCLUSIVE property=(C\d+)', c.stdout, re.M)))
             res = {'mutant': d, 'meta': json.load(open(os.path.join(p, 'meta.json'))), 'exit': c.returncode, 'violations': viol, 'inconclusive': inc}
             json.dump(res, open(os.path.join(p, 'checks.json'), 'w'))
             print(json.dumps(res), flush=True)
         finally:
-            subprocess.run(['git', '-C', '/repo', 'checkout', '--', '.'])
+            subprocess.run(['git', '-C', REPO, 'checkout', '--', '.'])
 
 if __name__ == '__main__':
-    {'gen': lambda: gen(sys.argv[2]), 'filter': lambda: filt(sys.argv[2], sys.argv[3], sys.argv[4]), 'run': lambda: run(sys.argv[2])}[sys.argv[1]]()
+    {'gen': lambda: gen(sys.argv[2]), 'filter': lambda: filt(sys.argv[2], sys.argv[3], sys.argv[4]), 'run': lambda: run(sys.argv[2], sys.argv[3])}[sys.argv[1]]()
